@@ -117,6 +117,9 @@ class MethodBase(Contract):
             for nm, f in kc.posts(st, rv, kctx):
                 out.append(('sum.' + nm, f))
             for k in self.fields:
+                mine, theirs = me[k], st.heap[c.rec2.id][k]
+                out.append(('no_aliasing_' + k, not (isinstance(mine, ArrV) and isinstance(theirs, ArrV) and mine.buf == theirs.buf)))
+            for k in self.fields:
                 Bk = st.acc(st.heap[c.rec2.id][k])
                 out.append(('operand_unchanged_' + k, band(cmp('==', Bk.n, len(c.oldB[k])), *[cmp('==', Bk[i], c.oldB[k][i]) for i in range(len(c.oldB[k]))])))
             return out
@@ -358,3 +361,53 @@ class DefaultThresh(Contract):
                 ssq = arith('+', ssq, ite(cond, arith('*', v, v), 0))
         r, f = split(ret)
         return [('rms', band(cmp('>=', r, 0), cmp('==', arith('*', arith('*', r, r), cnt), ssq))), ('finite', f)]
+
+
+class Psth(Contract):
+    """C20: psth = piecewise-constant function on equally wide bins spanning the recording; bin value = number of spikes
+    of all trains in the bin (last bin closed); values sum to the number of spikes inside the recording.
+    Rests on the assumed contracts of np.linspace / np.histogram (or whatever the code uses to count)."""
+    rel = 'pyspike/psth.py'
+    func = 'psth'
+
+    def setup(self, mode, size, values=None):
+        st = State()
+        nb = size[0]                      # number of bins selected by the bin size (made concrete by the precondition)
+        t0, t1, bs = in_real('t_start', values), in_real('t_end', values), in_real('bin_size', values)
+        trains, info, pre = [], [], [cmp('<', t0, t1), cmp('>', bs, 0)]
+        T = arith('-', t1, t0)
+        # int(T / bin_size) == nb
+        pre += [cmp('<=', arith('*', bs, nb), T), cmp('<', T, arith('*', bs, nb + 1))]
+        inputs = {'t_start': ('real', 't_start'), 't_end': ('real', 't_end'), 'bin_size': ('real', 'bin_size')}
+        objs = []
+        for k, n in enumerate(size[1:]):
+            sp = in_array(st, 'sp%d' % k, n, mode, values)
+            rec = st.new_rec('SpikeTrain', {'__local__': False, 'spikes': sp, 't_start': t0, 't_end': t1})
+            trains.append(rec)
+            S = st.acc(sp)
+            pre.append(spec.valid_train(S, t0, t1, nonempty=False))
+            info.append(S)
+            inputs['sp%d' % k] = ('array', 'sp%d' % k, S.n)
+            objs.append(dict(spikes='sp%d' % k, t_start='t_start', t_end='t_end'))
+        st.vars.update(spike_trains=trains, bin_size=bs)
+        return st, pre, Ctx(mode=mode, nb=nb, info=info, t0=t0, t1=t1, bs=bs, inputs=inputs, argorder=[],
+                            argspec=[('objlist', 'SpikeTrain', objs), ('val', 'bin_size')])
+
+    def posts(self, st, ret, c):
+        f = st.heap[ret.id]
+        X, Y = st.acc(f['x']), st.acc(f['y'])
+        nb = c.nb
+        allv = [S[j] for S in c.info for j in range(S.n)]
+        w = arith('/', arith('-', c.t1, c.t0), nb)
+        out = [('shape', band(cmp('==', X.n, nb + 1), cmp('==', Y.n, nb))),
+               ('equal_bins', band(*[cmp('==', X[k], split(arith('+', c.t0, arith('*', w, k)))[0]) for k in range(nb)] + [cmp('==', X[nb], c.t1)]))]
+        tot = 0
+        for k in range(nb):
+            cnt = 0
+            for v in allv:
+                inside = band(cmp('<=', X[k], v), cmp('<', v, X[k + 1]) if k < nb - 1 else cmp('<=', v, X[k + 1]))
+                cnt = arith('+', cnt, ite(inside, 1, 0))
+            out.append(('count[%d]' % k, cmp('==', Y[k], cnt)))
+            tot = arith('+', tot, Y[k])
+        out.append(('sum_is_number_of_spikes', cmp('==', tot, len(allv))))
+        return out
